@@ -10,7 +10,9 @@ use crate::util;
 use lace::debugger::verif_parse_command;
 use serde_json::{json, Value};
 
-pub const SIGMA: [char; 17] = ['+', '-', '#', 'x', 'o', 'b', '0', '1', '7', '9', 'a', 'f', 'g', '^', 'r', '_', 'é'];
+// 'ı' (U+0131) and 'Ų' (U+0172) are letters whose code points end in the bytes of '1' and 'r': a
+// parser that narrows a character to a byte reads them as a digit / the register prefix
+pub const SIGMA: [char; 19] = ['+', '-', '#', 'x', 'o', 'b', '0', '1', '7', '9', 'a', 'f', 'g', '^', 'r', '_', 'é', 'ı', 'Ų'];
 
 /// The six argument positions and what the reference expects there.
 /// Returns the Debug rendering of the command lace should produce, or Err for "must be rejected",
@@ -454,7 +456,7 @@ pub fn run(ctx: &Ctx) -> i32 {
         ctx,
         acc,
         Level { category: "model_checking", bfs: None },
-        "bounded-exhaustive enumeration: (a) every string of length 1..=5 (quick) / 6 (thorough) over the 17-character alphabet {+ - # x o b 0 1 7 9 a f g ^ r _ é} in each of six argument positions (integer value, step count, location of print / move, address of goto / break add), parsed by the real command parser and by the reference recogniser of the documented grammar: same acceptance and, when accepted, the same command with the same values (Debug rendering); (b) every value 0..65535 and -1..-32768 in every documented spelling (sign before or after the prefix, optional leading zero, 4 radices, letter case, leading zeros) as integer, as address and as PC offset, plus the i32 boundary in each radix; (c) every name documented in help.txt in three letter cases and every word of <= 3 letters with four argument shapes (totality, case-insensitivity); (d) every token of length <= 3 (thorough 4, stride 5) through the real debugger (`move r1 T`, `goto T`, `break add T`) against the reference debugger: accepted tokens have exactly the documented effect, rejected ones none; (e) 18 scripts (incl. 2-, 3- and 4-byte characters) x every split point between --command and stdin x ';'/newline per gap x trailing separator through the real binary: identical exit status, stdout and stderr. A seeded random supplement of longer strings with multi-byte characters is run and reported separately (sampling, not part of the exhaustive claim). non-trivial = accepted-and-equal parses + agreeing sessions / variants",
+        "bounded-exhaustive enumeration: (a) every string of length 1..=5 (quick) / 6 (thorough) over the 19-character alphabet {+ - # x o b 0 1 7 9 a f g ^ r _ é ı Ų} in each of six argument positions (integer value, step count, location of print / move, address of goto / break add), parsed by the real command parser and by the reference recogniser of the documented grammar: same acceptance and, when accepted, the same command with the same values (Debug rendering); (b) every value 0..65535 and -1..-32768 in every documented spelling (sign before or after the prefix, optional leading zero, 4 radices, letter case, leading zeros) as integer, as address and as PC offset, plus the i32 boundary in each radix; (c) every name documented in help.txt in three letter cases and every word of <= 3 letters with four argument shapes (totality, case-insensitivity); (d) every token of length <= 3 (thorough 4, stride 5) through the real debugger (`move r1 T`, `goto T`, `break add T`) against the reference debugger: accepted tokens have exactly the documented effect, rejected ones none; (e) 18 scripts (incl. 2-, 3- and 4-byte characters) x every split point between --command and stdin x ';'/newline per gap x trailing separator through the real binary: identical exit status, stdout and stderr. A seeded random supplement of longer strings with multi-byte characters is run and reported separately (sampling, not part of the exhaustive claim). non-trivial = accepted-and-equal parses + agreeing sessions / variants",
         true,
         &["strings-enumerated", "transport-variants-agree"],
         &["reference grammar = refmodel::cmdlang, validated against the repository's own parser tests by `lacemc selftest`", "negative step counts are not judged (help.txt says Integer, a code comment says non-positive means 1, the code casts to u16)"],
